@@ -75,13 +75,22 @@ def check(rep, tier):
                     cmasks = [np.asarray(S.getVialGroup(c), dtype=bool) for c in combos]
                     stats_df, traj_df = S.to_frame(n_timeSteps=2)
                     # recording selection by group
-                    recs = {}
+                    recs, reclab, subsel = {}, {}, {}
                     for g in GROUPS:
                         if masks[g].any():
                             Sg = sf.Snowflake(k=dict(k), N_vials=shape, configPath=cfg, opcond=op, dt=10, storeStates=g)
                             Sg.run()
                             _, tg = Sg.to_frame(n_timeSteps=2)
                             recs[g] = sorted(set(int(v) for v in tg["vial"]))
+                            reclab[g] = sorted(set((int(v), str(l)) for v, l in zip(tg["vial"], tg["group"])))
+                            # a random / uniform sub-selection of the group must stay inside the group
+                            nsel = rng.randint(1, int(masks[g].sum()))
+                            word = rng.choice(["random", "uniform"])
+                            Sr = sf.Snowflake(k=dict(k), N_vials=shape, configPath=cfg, opcond=op, dt=10,
+                                              storeStates=rng.choice(["%s_%s_%d", "%s.%s.%d"]) % (g, word, nsel))
+                            Sr.run()
+                            _, tr = Sr.to_frame(n_timeSteps=2)
+                            subsel[g] = (word, nsel, sorted(set((int(v), str(l)) for v, l in zip(tr["vial"], tr["group"]))))
                     SF = sfall.Snowfall(Nrep=2, k=dict(k), N_vials=shape, configPath=cfg, opcond=op, dt=10)
                     SF.run(how="sequential")
                     fdf = SF.to_frame()
@@ -124,6 +133,19 @@ def check(rep, tier):
                 if g in recs and recs[g] != want:
                     rep.violation("record-by-group %s" % g, "%s: storeStates=%r records %s but getVialGroup gives %s" % (key, g, recs[g][:8], want[:8]),
                                   dict(arrangement=arr, shape=shape, group=g, recorded=recs[g], expected=want))
+                for (v, l) in reclab.get(g, []):
+                    if canon(arr, nz, l) != cls[v]:
+                        rep.violation("traj-label recorded-subset", "%s with storeStates=%r: vial %d of class %s is labelled %r in the trajectory table" % (key, g, v, cls[v], l),
+                                      dict(arrangement=arr, shape=shape, storeStates=g, vial=v, label=l, expected=cls[v]))
+                        break
+                if g in subsel:
+                    word, nsel, vl = subsel[g]
+                    outside = [v for v, _ in vl if not masks[g][v]]
+                    wrong = [(v, l) for v, l in vl if canon(arr, nz, l) != cls[v]]
+                    if outside or len(vl) > nsel or (word == "random" and len(vl) != nsel) or wrong:
+                        rep.violation("record-subselection %s" % word,
+                                      "%s with storeStates='%s_%s_%d' records vials %s (labels %s); group %r is %s" % (key, g, word, nsel, [v for v, _ in vl], wrong[:3], g, want[:10]),
+                                      dict(arrangement=arr, shape=shape, group=g, word=word, count=nsel, recorded=vl))
                 got, n_api = filt[g]
                 if got != want or n_api != 2 * len(want):
                     syn = g == "side" and (arr == "hexagonal" or nz == 1)
